@@ -311,6 +311,11 @@ class _FuncAnalysis(ast.NodeVisitor):
             return ("unknown",)
         if isinstance(e, ast.Call) and isinstance(e.func, ast.Name) and e.func.id == "cast" and len(e.args) == 2:
             return self.classify(e.args[1])     # typing.cast is the identity
+        if isinstance(e, ast.Call) and len(e.args) == 1 and (
+                (isinstance(e.func, ast.Name) and e.func.id == "copy") or
+                (isinstance(e.func, ast.Attribute) and e.func.attr == "copy" and isinstance(e.func.value, ast.Name)
+                 and e.func.value.id == "copy")):
+            return self.classify(e.args[0])     # a shallow copy shares every attribute value with the original
         if isinstance(e, (ast.Constant, ast.List, ast.Tuple, ast.Dict, ast.Set, ast.ListComp, ast.DictComp, ast.SetComp,
                           ast.GeneratorExp, ast.BinOp, ast.UnaryOp, ast.BoolOp, ast.Compare, ast.JoinedStr, ast.Lambda,
                           ast.Call)):
@@ -541,7 +546,8 @@ class _FuncAnalysis(ast.NodeVisitor):
         elif isinstance(f, ast.Lambda):
             self.visit(f)
         elif isinstance(f, ast.Call):
-            self.visit(f)      # e.g. super().__init__ handled in _call_attr; f()() otherwise
+            self.visit(f)
+            self.unrec(node, "call of the result of a call: %s" % ast.unparse(f)[:60])
         elif isinstance(f, ast.Subscript):
             self.visit(f.value)
             self.unrec(node, "call of a subscripted value: %s" % ast.unparse(f)[:60]) \
